@@ -8,7 +8,7 @@
    adouble programs against the extracted model), Tape.v (sweeps of Stack.cpp). *)
 From Coq Require Import ZArith List Reals Ring_theory.
 From Coquelicot Require Import Coquelicot.
-From Adept Require Import Scalar ExprDefs Expr ExprProofs Tape TapeAdjoint Program ProgramProofs ExprReal.
+From Adept Require Import Scalar ExprDefs Expr ExprProofs ExprScalar ExprScalarProofs Tape TapeAdjoint Program ProgramProofs ExprReal.
 From AdeptGen Require Import Gen_Ops.
 Import ListNotations.
 
@@ -43,8 +43,46 @@ Proof. exact (reverse_is_tangent F Rth Hdiv Hlit1 eqb_true). Qed.
 Theorem C01_pushes_within_n_active : forall arrs (e : expr (T:=T)) A S scr w,
   (Z.of_nat (length (calc_gradient F arrs e A S scr w)) <= n_active e)%Z.
 Proof. exact (pushes_le_n_active F). Qed.
+
+(* c op e and e op c with a passive scalar c go through the wrapper classes BinaryOpScalarLeft / BinaryOpScalarRight,
+   whose child positions and forwarding template arguments are TRANSLATED from the source (scalar_left_node,
+   scalar_right_node, and the lists of policies they are instantiated with): for every policy so instantiated, every
+   child expression and every direction they return the value and push the tangent of the binary node with a passive
+   leaf; inside any enclosing tree (any A, S, multiplier) they are that node (lemmas left_... and right_... of ExprScalarProofs.v) *)
+Theorem C01_scalar_wrappers : forall k c (e : expr (T:=T)) u,
+  (In k scalar_left_ops ->
+     fst (sn_value_and_gradient F scalar_left_node true k c e) = sem F (XBin k (XPas c) e) /\
+     dot_ops F (snd (sn_value_and_gradient F scalar_left_node true k c e)) u = tangent F u (XBin k (XPas c) e)) /\
+  (In k scalar_right_ops ->
+     fst (sn_value_and_gradient F scalar_right_node false k c e) = sem F (XBin k e (XPas c)) /\
+     dot_ops F (snd (sn_value_and_gradient F scalar_right_node false k c e)) u = tangent F u (XBin k e (XPas c))).
+Proof.
+  intros k c e u. split.
+  - exact (scalar_left_correct F scalar_left_node scalar_left_ops generated_left_ok Rth Hdiv Hlit1 k c e u).
+  - exact (scalar_right_correct F scalar_right_node scalar_right_ops generated_right_ok Rth Hdiv Hlit1 k c e u).
+Qed.
+Theorem C01_scalar_wrappers_in_context : forall arrs k c (e : expr (T:=T)) A S scr w,
+  (In k scalar_left_ops ->
+     sn_value_store F scalar_left_node true arrs k c e A S scr = value_store F arrs (XBin k (XPas c) e) A S scr) /\
+  sn_value_stored F scalar_left_node true arrs k c e A S scr = value_stored F arrs (XBin k (XPas c) e) A S scr /\
+  sn_calc_gradient F scalar_left_node true arrs k c e A S scr w = calc_gradient F arrs (XBin k (XPas c) e) A S scr w /\
+  (In k scalar_right_ops ->
+     sn_value_store F scalar_right_node false arrs k c e A S scr = value_store F arrs (XBin k e (XPas c)) A S scr) /\
+  sn_value_stored F scalar_right_node false arrs k c e A S scr = value_stored F arrs (XBin k e (XPas c)) A S scr /\
+  sn_calc_gradient F scalar_right_node false arrs k c e A S scr w = calc_gradient F arrs (XBin k e (XPas c)) A S scr w.
+Proof.
+  intros arrs k c e A S scr w.
+  split; [exact (left_value_store F scalar_left_node scalar_left_ops generated_left_ok arrs k c e A S scr)|].
+  split; [exact (left_value_stored F scalar_left_node scalar_left_ops generated_left_ok arrs k c e A S scr)|].
+  split; [exact (left_calc_gradient F scalar_left_node scalar_left_ops generated_left_ok arrs k c e A S scr w)|].
+  split; [exact (right_value_store F scalar_right_node scalar_right_ops generated_right_ok arrs k c e A S scr)|].
+  split; [exact (right_value_stored F scalar_right_node scalar_right_ops generated_right_ok arrs k c e A S scr)|].
+  exact (right_calc_gradient F scalar_right_node scalar_right_ops generated_right_ok arrs k c e A S scr w).
+Qed.
 End AnyRing.
 Print Assumptions C01_expression.
+Print Assumptions C01_scalar_wrappers.
+Print Assumptions C01_scalar_wrappers_in_context.
 Print Assumptions C01_tape_forward.
 Print Assumptions C01_reverse_equals_first_order_evaluation.
 Print Assumptions C01_pushes_within_n_active.
@@ -54,6 +92,14 @@ Theorem C01_template_arguments : forall k, let p := policy_of k in
   rule_at SL (p_left p) /\ rule_at SL (p_left_m p) /\ rule_at SR (p_right p) /\ rule_at SR (p_right_m p) /\ (0 <= p_store_result p <= 2)%Z.
 Proof. exact policies_canonical. Qed.
 Print Assumptions C01_template_arguments.
+
+(* the generated tables of the two scalar wrapper classes: child stored where the binary node stores it, policy entered
+   with the node's own MyArrayNum / MyScratchNum, and no policy with two scratch slots instantiated through a wrapper
+   that fills only one (BinaryOpScalarRight has no operation_store variant) *)
+Theorem C01_scalar_wrapper_tables :
+  snode_left_ok scalar_left_node scalar_left_ops /\ snode_right_ok scalar_right_node scalar_right_ops.
+Proof. exact (conj generated_left_ok generated_right_ok). Qed.
+Print Assumptions C01_scalar_wrapper_tables.
 
 (* the derivative expressions of the unary table and the binary partial derivatives are the true derivatives over R.
    _partial: asin, acos, erf, erfc, cbrt, atan2 and the (zero) derivatives of the rounding functions are not covered *)
